@@ -19,6 +19,25 @@ def boundaries(data):
     return hl, [hl] + [e for _, _, _, _, e in K.split_blocks(data, hl)]
 
 
+def impl_read_via_blocks(data, limit_s=10):
+    """records obtained by iterating fastavro.block_reader (a block is handed out only after its marker matched)"""
+    import fastavro
+    out, per_block = [], []
+    def go():
+        for b in fastavro.block_reader(io.BytesIO(data)):
+            recs = list(b)
+            per_block.append(len(recs))
+            out.extend(recs)
+    try:
+        core.with_timeout(go, limit_s)
+        oc = "END"
+    except core.Timeout:
+        oc = "TIMEOUT"
+    except Exception:
+        oc = "RAISED"
+    return oc, out, per_block
+
+
 def run(ctx):
     import fastavro
     rng = ctx.rng
@@ -57,6 +76,14 @@ def run(ctx):
                        "ends-normally-off-a-block-boundary" if not end_ok else "header-cut-not-reported")
                 ctx.violation("corr:cut", dict(c04.case_json(c), file=data.hex(), cut=k), impl=t[:600], model="prefix of " + str(len(full)) + " records; END only at " + str(bnds),
                               signature="C06:cut:" + why, found_input=True)
+            # the same cut through the block reader
+            boc, bout, _ = impl_read_via_blocks(cut)
+            bgot = [G.show_py(v) for v in bout]
+            if bgot != full_txt[:len(bgot)] or (boc == "END" and k not in bnds) or boc == "TIMEOUT" or (k < hl and boc != "RAISED"):
+                ctx.violation("corr:cut", dict(c04.case_json(c), file=data.hex(), cut=k, via="block_reader"), impl=boc + " after %d records" % len(bout),
+                              model="prefix of %d records; END only at %s" % (len(full), bnds),
+                              signature="C06:cut:block_reader:" + ("yields-records-that-were-not-written" if bgot != full_txt[:len(bgot)] else "ends-normally-off-a-block-boundary"),
+                              found_input=True)
             if c["codec"] == "null" and (quick is False or rng.random() < 0.35):
                 exprs.append(K.expr_readfile(c["parsed"], c["named"], cut))
                 meta_e.append((c, k, t))
@@ -91,6 +118,14 @@ def run(ctx):
                     ctx.violation("corr:sync-flip", dict(c04.case_json(c), file=bad.hex(), block=bi, byte=pos), impl=t[:600],
                                   model="records of blocks 0..%d then an error" % bi,
                                   signature="C06:sync:altered-marker-not-reported-at-its-block", found_input=True)
+                # block reader: blocks before the altered one are handed out, then the error
+                boc, bout, per_block = impl_read_via_blocks(bad)
+                expect_b = sum(max(0, x) for x in counts[:bi])
+                if boc != "RAISED" or len(bout) != expect_b:
+                    ctx.violation("corr:sync-flip", dict(c04.case_json(c), file=bad.hex(), block=bi, byte=pos, via="block_reader"),
+                                  impl="%s after %d records in %d blocks" % (boc, len(bout), len(per_block)),
+                                  model="blocks 0..%d then an error" % (bi - 1),
+                                  signature="C06:sync:block_reader:altered-marker-not-reported-at-its-block", found_input=True)
                 if c["codec"] == "null" and rng.random() < 0.5:
                     exprs.append(K.expr_readfile(c["parsed"], c["named"], bad))
                     meta_e.append((c, bi, pos, t, bad))
